@@ -167,13 +167,14 @@ XLINK = "http://www.w3.org/1999/xlink"
 XML = "http://www.w3.org/XML/1998/namespace"
 XMLNS = "http://www.w3.org/2000/xmlns/"
 R_NAMES = ["div", "p", "span", "a", "b", "table", "td", "ul", "li", "pre", "textarea", "title", "script", "x-y", "svg",
-           "math", "mi", "foreignObject", "keygen", "command", "event-source", "image", "é", "a:b", "DIV"]
+           "math", "mi", "foreignObject", "keygen", "command", "event-source", "image", "é", "a:b", "DIV",
+           "a}b", "a}", "h{{l}}", "x:{y}z", "m{i}:j", "a}b}c"]
 R_VOID = ["area", "base", "br", "col", "embed", "hr", "img", "input", "link", "meta", "param", "source", "track", "wbr"]
 R_TEXT = ["x", " ", "  ", "\n", "\t\n\x0c\r ", " x", "x ", " x ", "a b", "a  b ", "\x0b", "\xa0", " \xa0 ", " ", "\x00",
           "\ud800", "\U0001f600", "é", "<", "&amp;", "]]>", " \x0bx\x0b ", "\r", "\x0c"]
 R_ATTR = [(None, "id"), (None, "class"), (None, "xlink:href"), (XLINK, "href"), (XML, "lang"), (XMLNS, "xmlns"),
           (XMLNS, "xlink"), (None, "a:b"), (SVG, "odd"), (XLINK, "bogus"), (None, "é"), (None, "xml:lang"), (XML, "base"), (None, "lang"), (None, "href"), (None, "b:b"),
-          (None, "c:b")]
+          (None, "c:b"), (None, "a}b"), (None, "c}"), (None, "d:{e}"), (XLINK, "f}g"), (SVG, "h}i:j"), (None, "k{l")]
 R_VAL = ["", "x", " ", "a b", "\n", "é", "\x00", "<>&\"'"]
 
 
